@@ -54,6 +54,8 @@ fn aux_publish(p: Publication<'_, &[u8]>) -> Option<CPacket> {
     })
 }
 
+static DECOY: [Property<'static>; 1] = [Property::UserProperty("decoy", "decoy")];
+
 fn owned<const T: usize, const C: usize>(
     m: &InboundPublish<'_>,
     payload: &[u8],
@@ -67,6 +69,10 @@ fn owned<const T: usize, const C: usize>(
         Ok(Some(t)) => {
             let mut p = t.publication(payload).qos(qos_of(qos));
             if let Some(u) = user {
+                // one reply in three attaches a first list and then replaces it
+                if (payload.len() + u.len()) % 3 == 0 {
+                    p = p.properties(&DECOY);
+                }
                 p = p.properties(u);
             }
             let sent = aux_publish(p);
@@ -122,6 +128,9 @@ pub fn answer(
             Some(p) => {
                 let mut p = p.qos(qos_of(qos));
                 if let Some(u) = &user {
+                    if (payload.len() + u.len()) % 3 == 0 {
+                        p = p.properties(&DECOY);
+                    }
                     p = p.properties(u);
                 }
                 (
